@@ -805,6 +805,20 @@ impl PagedCachedFile {
             }
         };
 
+        // A newly allocated page can still have a write buffered from an earlier life as a page of
+        // another size: rebuilding the allocator state frees the pages leaked by a transaction that
+        // a panic dropped, and cannot know what they had buffered. The caller is about to overwrite
+        // the whole page, so the stale copy is simply dropped
+        if overwrite
+            && lock
+                .get(offset)
+                .is_some_and(|buffered| buffered.len() != len)
+        {
+            let stale = lock.remove(offset).unwrap();
+            self.write_buffer_bytes
+                .fetch_sub(stale.len(), Ordering::AcqRel);
+        }
+
         let data = if let Some(removed) = lock.take_value(offset) {
             #[cfg(feature = "cache_metrics")]
             self.writes_hits.fetch_add(1, Ordering::AcqRel);
